@@ -19,10 +19,20 @@ warnings.simplefilter("ignore")
 KEYS = ["a", "b", "c"]
 
 
+LAYOUT = [0]      # memory layout of the array leaves (case["layout"]): a data refinement below the spec, which only sees "a leaf"
+
+
 def leaf_value(path):
     base = 1.5 + sum((i + 1) * p for i, p in enumerate(path))
     if (sum(path) + len(path)) % 2 == 0:
         return float(base)
+    lay = LAYOUT[0]
+    if lay == 1:      # Fortran-ordered 2-D leaf
+        return onp.asfortranarray(onp.array([[base, base + 0.25], [base + 0.5, base + 0.75]]))
+    if lay == 2:      # transposed view (F-contiguous, does not own its data)
+        return onp.array([[base, base + 0.25, base + 0.5], [base + 1.0, base + 1.25, base + 1.5]]).T
+    if lay == 3:      # strided, neither C- nor F-contiguous
+        return (base + 0.125 * onp.arange(16.0).reshape(4, 4))[::2, ::2]
     return onp.array([base, base + 0.25])
 
 
@@ -152,6 +162,7 @@ def run(case):
     tree, prog, outmode, variant = case["tree"], case["prog"], case["outmode"], case.get("variant", 0)
     o = {"id": case["id"], "tree": tree, "prog": prog, "outmode": outmode, "err": "", "grad": [], "flat_ok": True, "unflat_ok": True,
          "commute_ok": True, "jvp": "skip", "jvp_expected": 0, "struct_ok": True, "type_ok": True, "val_ok": True}
+    LAYOUT[0] = int(case.get("layout", 0))
     try:
         value = build_root(tree, variant)
         sizes = leaf_sizes(tree, [])
